@@ -418,6 +418,10 @@ func main() {
 					r.Seq("persist/"+cfg.Name(), func(x *mc.X) { hamt.Search(x, cfg) }).NoShard = true
 				}
 			}
+			for _, hn := range []string{"identity", "high-bits"} {
+				cfg := hamt.Config{Kind: kind, Hasher: hamt.HasherByName(hn), Ballast: 0, Active: []int{0, 1, 2, 3, 4, 5, 6, 32, 64, 33}, Values: []int{1}, Start: "updated", ShrinkOnly: true, Persist: true}
+				r.Seq("persist/"+cfg.Name(), func(x *mc.X) { hamt.Search(x, cfg) }).NoShard = true
+			}
 			cfg := hamt.Config{Kind: kind, Hasher: hamt.HasherByName("identity"), Ballast: 2, Active: active, Values: []int{1, 2}, Start: "zero", Persist: true}
 			r.Seq("persist/"+cfg.Name(), func(x *mc.X) { hamt.Search(x, cfg) }).NoShard = true
 		}
